@@ -11,7 +11,7 @@ CHECKS = {
         "runs": {"quick": 45_000, "thorough": 4_000_000},
         "chunk": {"quick": 1000, "thorough": 2_000},
         "budget_s": {"quick": 75, "thorough": 900},
-        "run_timeout": 20,
+        "run_timeout": {"quick": 60, "thorough": 900},
         "manifest": {
             "text": "Seeded search over histories of Library.add/remove/replace (incl. failing and partially failing calls) with a "
                     "reference model checked after every call: refinement of the ordered logical block list, view consistency, "
@@ -48,7 +48,7 @@ CHECKS["C19"] = {
     "runs": {"quick": 150_000, "thorough": 6_000_000},
     "chunk": {"quick": 2500, "thorough": 5_000},
     "budget_s": {"quick": 75, "thorough": 900},
-    "run_timeout": 20,
+    "run_timeout": {"quick": 60, "thorough": 900},
     "manifest": {
         "text": "Seeded search over histories of mapping operations (set_field, item assignment, pop, del, get, in, lookup, items, "
                 "fields, fields_dict) on an entry and on a forked deep copy, with an insertion-ordered dict as reference model checked "
@@ -143,7 +143,7 @@ CHECKS["C04"] = {
     "runs": {"quick": 150_000, "thorough": 1_500_000},
     "chunk": {"quick": 500, "thorough": 2_000},
     "budget_s": {"quick": 80, "thorough": 900},
-    "run_timeout": 60,
+    "run_timeout": {"quick": 90, "thorough": 900},
     "manifest": {
         "text": "A stored file D1 + M + D2 whose middle document M is damaged by 0-2 storage faults (or replaced by raw garbage) is split by the real Splitter and by "
                 "parse_string(parse_stack=[]); differential oracle against the undamaged neighbours parsed on their own: the first len(parse(D1)) blocks and the last "
@@ -170,7 +170,7 @@ CHECKS["C05"] = {
     "runs": {"quick": 120_000, "thorough": 1_000_000},
     "chunk": {"quick": 500, "thorough": 2_000},
     "budget_s": {"quick": 80, "thorough": 900},
-    "run_timeout": 60,
+    "run_timeout": {"quick": 90, "thorough": 900},
     "manifest": {
         "text": "Weakest fit (DESIGN.md says so). Durability reading: seed file (foreign tool or library writer) -> parse_file -> write_file(format F) -> restart (memory dropped) -> "
                 "parse_file -> content must equal what was saved; write_file again with F -> bytes identical; 1-4 cycles with the format, target path, encoding "
@@ -193,7 +193,7 @@ CHECKS["C07"] = {
     "runs": {"quick": 20_000, "thorough": 800_000},
     "chunk": {"quick": 250, "thorough": 2_000},
     "budget_s": {"quick": 80, "thorough": 900},
-    "run_timeout": 60,
+    "run_timeout": {"quick": 90, "thorough": 900},
     "manifest": {
         "text": "Seeded search over histories of read-only operations (write_string / write_file to path and file object with formats incl. 'auto'; "
                 "transform by one long-lived copy-mode instance of every shipped middleware class and option set, applied to parsed, damaged, "
@@ -224,7 +224,7 @@ CHECKS["C20"] = {
     "runs": {"quick": 60_000, "thorough": 1_500_000},
     "chunk": {"quick": 500, "thorough": 2_000},
     "budget_s": {"quick": 80, "thorough": 900},
-    "run_timeout": 60,
+    "run_timeout": {"quick": 90, "thorough": 900},
     "manifest": {
         "text": "Seeded histories of entry-point calls against a simulated disk and probe middlewares: (a) parse_string / write_string with every argument "
                 "pattern (given stack, addition, both -> ValueError, neither; list / tuple / one-shot iterator) of 0-3 order-sensitive probe and shipped "
@@ -262,7 +262,7 @@ CHECKS["C18"] = {
     "runs": {"quick": 60_000, "thorough": 1_000_000},
     "chunk": {"quick": 400, "thorough": 2_000},
     "budget_s": {"quick": 80, "thorough": 900},
-    "run_timeout": 60,
+    "run_timeout": {"quick": 90, "thorough": 900},
     "manifest": {
         "text": "Partial. The third-party converter is replaced through the encoder= / decoder= constructor seam by a wrapper that fails chosen calls with one of 21 "
                 "exception kinds (real pylatexenc or a marker stub underneath); every text value is made unique so a failed call identifies its site "
